@@ -1,7 +1,7 @@
 (* Shared engine cases: the model evaluated on what the real code ran on, and the property
    predicates (C01 C04 C06 C07 C13 C20) evaluated on what the real code returned. *)
 From Coq Require Import List String ZArith NArith Bool Floats.
-From WTF Require Import Model.Tfidf Model.Fuzzy Model.Validate Model.Text Model.Platform Model.Engine Check.Render Check.EngineTypes.
+From WTF Require Import Model.Tfidf Model.Fuzzy Model.Nlp Model.Validate Model.Text Model.Platform Model.Engine Check.Render Check.EngineTypes.
 Import ListNotations.
 Open Scope string_scope.
 
@@ -15,7 +15,9 @@ Record ecase := {
   k_recased : bytes;
   k_nlp_keywords : list bytes;        (* ProcessQuery(...).Keywords: the keywords extracted from the user's own text *)
   k_nlp_sig : list bytes; k_nlp_sig2 : list bytes;  (* the whole analysis, flattened, from two analyses of the same text *)
-  k_doc_toks : list (list bytes); k_q_toks : list bytes; k_logt : list float   (* inputs of the TF-IDF model *)
+  k_doc_toks : list (list bytes); k_q_toks : list bytes; k_logt : list float;  (* inputs of the TF-IDF model *)
+  k_tabs : tables; k_words : list bytes; k_qlower : bytes;                      (* inputs of the NLP model (Model/Nlp.v) *)
+  k_nlp_intent : intent; k_nlp_hints : list bytes                               (* observed: intent and command hints *)
 }.
 
 Definition env_of (c : ecase) : env :=
@@ -37,9 +39,20 @@ Definition with_opts (o : options) (limit : option Z) (fuzzy nlp : option bool) 
 
 (* the NLP information the engine model runs on: per-document multipliers and the analysis come from the code (oracles),
    the TF-IDF ranking is COMPUTED by Model/Tfidf.v from the tokenizer's output (it is compared with the code's in tfidf_agrees) *)
+(* the analysis of the query computed by Model/Nlp.v from the cleaned words and the lower-cased text *)
+Definition model_analysis (c : ecase) : analysis := process_query (k_tabs c) (k_words c) (k_qlower c).
+
+(* ... against what ProcessQuery / getCommandHints / GetEnhancedKeywords returned *)
+Definition nlp_agrees (c : ecase) : bool :=
+  let a := model_analysis c in
+  list_eqb bytes_eqb (a_actions a) (n_actions (k_nlp c)) && list_eqb bytes_eqb (a_targets a) (n_targets (k_nlp c)) &&
+  list_eqb bytes_eqb (a_keywords a) (k_nlp_keywords c) && intent_eqb (a_intent a) (k_nlp_intent c) &&
+  list_eqb bytes_eqb (command_hints a) (k_nlp_hints c) && list_eqb bytes_eqb (enhanced_keywords a) (n_enhanced (k_nlp c)).
+
 Definition model_nlp (c : ecase) : nlp_info :=
   let n := k_nlp c in
-  {| n_actions := n_actions n; n_targets := n_targets n; n_enhanced := n_enhanced n; n_intent_boost := n_intent_boost n;
+  let a := model_analysis c in
+  {| n_actions := a_actions a; n_targets := a_targets a; n_enhanced := enhanced_keywords a; n_intent_boost := n_intent_boost n;
      n_cooccur := n_cooccur n; n_cascade := n_cascade n;
      n_tfidf := match k_cmds c with
                 | [] => None
@@ -76,6 +89,7 @@ Definition fuzzy_agrees (c : ecase) : bool :=
 
 (* model vs. implementation on the main run and on every paired run *)
 Definition mismatch (c : ecase) : option string :=
+  if negb (nlp_agrees c) then Some "nlp_analysis" else
   if negb (tfidf_agrees c) then Some "tfidf" else
   if negb (fuzzy_agrees c) then Some "fuzzy_matcher" else
   let o := k_opts c in
